@@ -364,7 +364,10 @@ def _dict_ctor(interp, st, args, kwargs):
         if isinstance(base, PyRef) and base.kind == 'dict':
             d.update(interp.deref(st, base))
         else:
-            raise Unsupported('dict(symbolic)')
+            pairs = interp.concrete_items(st, base)
+            if pairs is None or not all(isinstance(x, tuple) and len(x) == 2 and isinstance(x[0], (str, int, bytes)) for x in pairs):
+                raise Unsupported('dict(symbolic)')
+            d.update(pairs)        # dict(iterable of (key, value)): insertion order of the pairs
     d.update(kwargs)
     yield st, st.new_py('dict', d)
 
@@ -682,6 +685,8 @@ def str_method(interp, st, recv, name, args, kwargs):
             st.assume(z3.Contains(z, r))
         st.assume(z3.Implies(z3.Length(z) == 0, r == z))
         yield st, SV(k, r)
+    elif name in ('lower', 'upper', 'title') and not args and isinstance(recv, (str, bytes)):
+        yield st, getattr(recv, name)()        # a literal: the value is computed
     elif name == 'lower' and not args:
         f = interp.uf('lower', k, k)
         yield st, SV(k, f(z))
